@@ -335,6 +335,53 @@ def r10(text):
     return text, n
 
 
+@rule("R41", "Definition of a `match` on string-literal patterns: `match s { \"a\" | \"b\" => A, \"c\" => B, x if G => C, _ => D }` -> "
+             "`if s.is(\"a\") || s.is(\"b\") { A } else if s.is(\"c\") { B } else if { let x = s; G } { C } else { D }` "
+             "(arms are tried in order; `is` is `str == literal`; a guard arm binding the scrutinee under its own name is just the guard).")
+def r41(text):
+    n = 0
+    while True:
+        m = re.search(r"\bmatch\s+(\w+)\s*\{\s*(?=\")", text)
+        if not m:
+            break
+        scrut = m.group(1)
+        o = text.index("{", m.start())
+        toks = tokenize(text[o:])
+        c = o + toks[match_close(toks, 0)].start
+        arms = [a for a in _split_top(text[o + 1:c]) if a.strip()]
+        parts, ok, closed = [], True, False
+        for a in arms:
+            if "=>" not in a:
+                ok = False
+                break
+            pat, body = a.split("=>", 1)
+            pat, body = pat.strip(), body.strip()
+            if not (body.startswith("{") and body.endswith("}")):
+                body = "{ %s }" % body
+            if pat == "_":
+                parts.append(body)
+                closed = True
+                break
+            g = re.fullmatch(r"(\w+)\s+if\s+(.*)", pat, re.S)
+            if g:
+                cond = g.group(2).strip() if g.group(1) == scrut else "{ let %s = %s; %s }" % (g.group(1), scrut, g.group(2).strip())
+            else:
+                lits = [x.strip() for x in pat.split("|")]
+                if not all(re.fullmatch(r'"(?:[^"\\\\]|\\\\.)*"', x) for x in lits):
+                    ok = False
+                    break
+                cond = " || ".join("%s.is(%s)" % (scrut, x) for x in lits)
+            parts.append("if %s %s else" % (cond, body))
+        if not ok or not closed:
+            break
+        rep = " ".join(parts)
+        old = text[m.start():c + 1]
+        rep = rep + "\n" * max(0, old.count("\n") - rep.count("\n"))
+        text = text[:m.start()] + rep + text[c + 1:]
+        n += 1
+    return text, n
+
+
 @rule("R16", "`SmallVec<[Range<u64>; 1]>` -> `Vec<Range<u64>>`, `SmallVec::new()` -> `Vec::new()`, `.into_vec()` dropped: "
              "a SmallVec is a Vec with inline storage (same sequence semantics).")
 def r16(text):
